@@ -49,10 +49,10 @@ AttributesImpl::AttributesImpl(MemoryManager&      theManager) :
 
 AttributesImpl::~AttributesImpl()
 {
-    // Clean up everything...
-    clear();
-
-    assert(m_attributesVector.empty() == true);
+    // Clean up everything.  Don't call clear(), because it
+    // moves the entries to the cache, which may need to
+    // allocate memory, and that must not fail in a destructor.
+    deleteEntries(m_attributesVector);
 
     deleteEntries(m_cacheVector);
 }
